@@ -26,8 +26,15 @@ HIGH = {'c0': ['g0'], 'c1': ['g1'], 'c2': ['g2', 'g5'], 'c3': ['g3'],
         'c4': ['g4', 'g5']}
 
 
+BASE_GENES = list(GENES)
+
+
 def setup(case, mode):
     warnings.simplefilter('ignore')
+    # optionally a wide gene table (index types change at 256 genes): the
+    # informative genes come last
+    GENES[:] = [f'silent{i}' for i in range(case.get('wide_genes', 0))] \
+        + BASE_GENES
     import cell_type_mapper.diff_exp.p_value_mask as PV
     import cell_type_mapper.diff_exp.p_value_markers as PVM
     for m in (PV, PVM):
